@@ -117,6 +117,63 @@ class C18(PropBase):
                 cases.append("%s %s S:%s,%s %d" % (variant, u, u, names[0], val()))
                 cases.append("%s %s S:%s %d" % (variant, names[0], u, val()))
                 cases.append("%s %s S:%s,%s %d" % (variant, names[-1], names[-1], u, val()))
+            # ---- context_flags x values across the 2^31 / 2^32 / 2^63 boundaries (validity All, every name)
+            cpu = t["cpu_flags"]
+            own = cpu.get(t["type"], 0)
+            fmask = (1 << t["flags_width"]) - 1
+            flagset = [0, own] + [own | b for b in (1, 2, 4, 8, 0x10, 0x20, 0x40, 0x3f, 0x7f)] + sorted(set(cpu.values()) - {own}) + \
+                      [own | o for o in sorted(set(cpu.values()) - {own})[:3]] + [0xffffffff, 0xdeadbeef, fmask]
+            flagset = list(dict.fromkeys(f & fmask for f in flagset))
+            bvals = [v for v in [(1 << 31) - 1, 1 << 31, (1 << 31) + 1, (1 << 32) - 1, 1 << 32, (1 << 32) + 1, (1 << 63) - 1, 1 << 63,
+                                 (1 << 63) + 1, 0xffffffff80001234, 0x00000001ffffffff, 0xfffffffffffffffe, ones - 1, ones] if v <= ones
+                     and (v >> (w - 8)) != 0x5A and ((v >> 24) & 0xFF) != 0x5A]
+            bvals = list(dict.fromkeys(bvals))
+            hi = [v for v in bvals if v >> 31] or bvals
+            j = 0
+            for n in names:
+                for f in flagset:
+                    j += 1
+                    cases.append("%s %s A %d %d" % (variant, n, hi[j % len(hi)], f))
+                for v in bvals:
+                    j += 1
+                    cases.append("%s %s A %d %d" % (variant, n, v, flagset[j % len(flagset)]))
+            dist["flag_cases"] = dist.get("flag_cases", 0) + len(names) * (len(flagset) + len(bvals))
+            # ---- validity sets as a family: double spellings (name + alias) with other registers missing; sizes n+1, n, n-1;
+            #      aliases standing in for absent canonical names; supersets
+            regs = t["registers"]
+            al = t["aliases"]                          # alias -> canonical
+            by_canon = {}
+            for a, c in al.items():
+                by_canon.setdefault(c, []).append(a)
+            fam = []
+            nreg = len(regs)
+            for miss in range(0, min(4, nreg)):
+                for start in range(0, nreg, max(1, nreg // 5)):
+                    missing = [regs[(start + i) % nreg] for i in range(miss)]
+                    base_set = [r for r in regs if r not in missing]
+                    fam.append((base_set, missing))                                   # plain subsets of size n, n-1, n-2, n-3
+                    canon_with_alias = [c for c in by_canon if c not in missing]
+                    for k in range(1, min(len(canon_with_alias), 4) + 1):             # k double spellings
+                        dbl = [by_canon[c][0] for c in canon_with_alias[:k]]
+                        fam.append((base_set + dbl, missing))
+                    # aliases of ABSENT registers: the alias alone keeps the register valid
+                    absent_alias = [by_canon[c][0] for c in missing if c in by_canon]
+                    if absent_alias:
+                        fam.append((base_set + absent_alias, [m for m in missing if m not in by_canon]))
+                        fam.append((base_set + absent_alias + [by_canon[c][0] for c in canon_with_alias[:2]], [m for m in missing if m not in by_canon]))
+            # alias-only and mixed respellings of the full set
+            fam.append(([by_canon[r][0] if r in by_canon else r for r in regs], []))
+            fam.append((regs + list(al), []))
+            seen = set()
+            for members, missing in fam:
+                key = ",".join(members)
+                if not members or key in seen:
+                    continue
+                seen.add(key)
+                probes = (missing[:2] + [a for m in missing for a in by_canon.get(m, [])][:1] + [members[0], members[-1]])[:4]
+                for n in probes:
+                    cases.append("%s %s S:%s %d %d" % (variant, n, key, val(), flagset[k % len(flagset)] if isinstance(k, int) else own))
+            dist["validity_family_sets"] = dist.get("validity_family_sets", 0) + len(seen)
             dist["by_type"][variant] = len(cases) - n0
         # de-duplicate S:a,a (a HashSet cannot hold a name twice)
         out = []
@@ -134,7 +191,7 @@ class C18(PropBase):
 
     # ------------------------------------------------------------------ oracle: the property on the live methods' answers
     def oracle(self, case, ans, profile):
-        variant, name, vspec, value = case.split(" ")
+        variant, name, vspec, value = case.split(" ")[:4]
         if ans.startswith("P;;"):
             return "%s: a method panicked outside the guarded reads: %s" % (variant, ans[3:200])
         d = parse(ans)
@@ -227,6 +284,11 @@ class C18(PropBase):
         if hit:
             return ("UNKNOWN-MEMBER: validity %s holds a name the context does not know and %s reached unreachable!() "
                     "(get_register / MinidumpContext::get_register / CpuContext::valid_registers)" % (vspec, "+".join(hit)))
+        # no panic: the enumeration must still be exactly the registers named (through aliases) by the known members
+        known = [c for c in lst(d["sm"]) if c != "N"]
+        want_vn = [r for r in lst(d["RG"]) if r in known]
+        if lst(d["vn"]) != want_vn:
+            return "%s: valid_registers() under %s lists [%s], expected %s" % (who, vspec, d["vn"], want_vn)
         return None
 
     def nontrivial(self, case, ans):
